@@ -281,6 +281,15 @@ async def _run_script(ctx, inv, ev, script):
                 e = inv.dispatch(ctx.buses[bus], _mk_event(ctx, 'R', lab, n=ev.n + 1))
                 if mode == 'await':
                     await inv.wait(e)
+        elif op == 'expect':
+            # await bus.expect(EventClass, timeout=...) (a temporary subscription); outcome recorded, never raised
+            _, bus, cls, to = st
+            ctx.rec('EXPB', by=inv.id, bus=bus)
+            try:
+                got = await ctx.buses[bus].expect(CLASSES[cls], timeout=float(_val(ctx, to)))
+                ctx.rec('EXPE', by=inv.id, bus=bus, outcome='match', ev=ctx.label(got))
+            except TimeoutError:
+                ctx.rec('EXPE', by=inv.id, bus=bus, outcome='timeout')
         elif op == 'block':
             # synchronous work that takes time: the clock advances while nothing else can run (timers that fall due meanwhile are all
             # handled in the next loop iteration, after whatever was already ready)
